@@ -1067,6 +1067,8 @@ impl Compiler {
                 }
                 Node::PackedId(None) if is_last_arg => {}
                 Node::PackedId(_) => {
+                    // Report the error at the offending arg rather than at the nested args
+                    self.push_span(ctx.node_with_span(arg), ctx.ast);
                     return self.error(ErrorKind::InvalidPositionForArgWithEllipses);
                 }
                 Node::Tuple { .. } | Node::MapPattern { .. } => {
